@@ -16,6 +16,14 @@ CHECKS = {
    text="The streaming update (StatisticProperties.add_sample) is regenerated from the source on every run over an abstract arithmetic signature. Theorems over R for every non-empty sample list: count, mean, sum of squared deviations, population std, min, max equal the textbook values; permutation and grouping invariance; position-based and iteration-number-based warm-up exclusion agree; 6-decimal reload keeps means within eps. The binary64 instance of the same generated expression is compared bit for bit with CPython, and live vs reloaded statistics through real sessions.",
    note="PARTIAL: no floating-point rounding-error bound is proved (identity over R + bit-exact agreement of code and binary64 model + measured distance to exact Fraction arithmetic). Axioms: the standard library's real-number axioms (sig_forall_dec, sig_not_dec, functional_extensionality_dep). Trusted: translator tr_welford.py, Coq PrimFloat = IEEE binary64.",
    technique="Rocq proof over R (invariant by induction, field) + translated update + bit-exact PrimFloat correspondence"),
+ "C05": dict(
+   text="PARTIAL. Proved for every adapter built on the common parse loop and ANY line classifier: iterations rendered as criterion lines + total line, with noise lines anywhere, are returned exactly, in order, one data point per iteration. Which concrete line shapes the regular expressions accept is decided by correspondence, not by theorem: the expressions are regenerated from the source with CPython's own re parser, the Gallina matcher is compared with re on generated lines, and rendered outputs of every documented format/numeral shape/unit/prefix/CRLF are parsed by the real adapters and compared with what was rendered (exact Fractions) and with the model.",
+   note="Not proved: per-format line theorems (render_line matches with the right groups) - stated in DESIGN.md as not finished. Trusted: Gallina regex engine as a description of re (differentially tested each run), tr_regex.py, CPython float().",
+   technique="Rocq proof (loop level, induction over rendered items) + translated regular expressions + render-then-parse correspondence"),
+ "C12": dict(
+   text="Theorems for every output text, every Unicode classification and both include-faulty settings: each of the six built-in adapters (seven parse variants) returns a reject or a non-empty list of data points with exactly one 'total', last, and no other exception; a failure marker reached before an accepting exit rejects as invalid unless faulty results were requested; generic version for any adapter written with the common loop. The regular expressions are regenerated from the source on every run; the hand-written loops are tied to the real parse_data by grammar-guided near-misses, splices and random strings, and the regex engine is compared with CPython's re.",
+   note="Trusted: Gallina regex engine + tr_regex.py (both validated against re each run), CPython float()/int() on extracted tokens, palette of non-ASCII characters for the executable instance (theorems hold for arbitrary classes).",
+   technique="Rocq proof (induction over lines, generic in the classifier) + translated regular expressions + differential correspondence"),
 }
 PENDING_REASON = "check not built yet in this round (planned at level proof, see DESIGN.md section 5); not claimed until its check exists"
 
